@@ -29,7 +29,7 @@ def main():
     a = ap.parse_args()
 
     mod = importlib.import_module("gen." + a.prop.lower())
-    ex = Executor(a.exe, wall_ms=getattr(mod, "WALL_MS", 20000))
+    ex = Executor(a.exe, wall_ms=getattr(mod, "WALL_MS", 20000), env=getattr(mod, "EXEC_ENV", None))
     kf = known.load(a.prop)
     S = {"evaluations": 0, "verdicts": {}, "nontrivial": set(), "samples": [],
          "stats": {}, "classes": {}, "max_steps": 0, "sum_steps": 0, "known_hits": {},
@@ -107,7 +107,7 @@ def main():
     if failure:
         # the shrunk case must fail deterministically before it is reported
         ex.close()
-        ex = Executor(a.exe, wall_ms=3 * getattr(mod, "WALL_MS", 20000))
+        ex = Executor(a.exe, wall_ms=3 * getattr(mod, "WALL_MS", 20000), env=getattr(mod, "EXEC_ENV", None))
         for _ in range(10 if ctx["native"] else 3):
             r = ex.run(failure["case"])
             if r.failed() or (not r.harness_problem() and r.verdict != "timeout"
